@@ -9,7 +9,7 @@ import warnings
 
 sys.path.insert(0, os.path.join(os.path.dirname(os.path.dirname(os.path.abspath(__file__))), "native"))
 
-VERSIONS = ["1", "2", "2.0", "2.1", "2.2", "2.9", "2.10", "3", "3.0", "3.1", "4", "4.0", "10.2"]
+VERSIONS = ["1", "2", "2.0", "2.1", "2.2", "2.2.1", "2.9", "2.10", "3", "3.0", "3.0.2", "3.1", "4", "4.0", "10.2"]
 
 
 def _parse(v):
@@ -70,11 +70,19 @@ def run_case(version, explicit, legacy, order_hint=0):
     return problems
 
 
+def _bump_patch(version):
+    parts = version.split(".")
+    if len(parts) >= 3:
+        return ".".join(parts[:2] + [str(int(parts[2]) + 1)])
+    return ".".join(parts + ["0"] * (2 - len(parts)) + ["1"])
+
+
 def bounded_api_versions(tier, seed):
     failures, cases = [], 0
     for legacy in (False, True):
         for version in VERSIONS:
-            for explicit in (None, version, "2.0", "3.0"):
+            # (configured: none, the same string, two fixed ones, and the announced one with the patch level changed / added)
+            for explicit in dict.fromkeys((None, version, "2.0", "3.0", _bump_patch(version))):
                 if explicit is None and version is None and legacy:
                     pass
                 cases += 1
@@ -99,7 +107,7 @@ def bounded_api_versions(tier, seed):
         if pr:
             failures.append({"desc": "two classes named Simulator of different API generations in one process: " + "; ".join(pr),
                              "case": {"first_legacy": first_legacy}})
-    return {"bound": f"announced versions {VERSIONS} x configured api_version in (none, same, 2.0, 3.0) x (v3 | legacy signatures), two steps each; "
+    return {"bound": f"announced versions {VERSIONS} x configured api_version in (none, same, 2.0, 3.0, same with another patch level) x (v3 | legacy signatures), two steps each; "
                      "plus two same-named classes of different generations in sequence", "cases": cases, "failures": failures[:5]}
 
 
